@@ -135,7 +135,21 @@ def tasks(tier):
                 out.append({"sort": sort, "depth": d, "meshes": grp[i:i + BATCH]})
         for x in big:
             out.append({"sort": sort, "depth": depth_of(x), "meshes": [x]})
+    # input-form deviations (histories of <= 1 event in quick, <= 2 in thorough; every accessor in every state reached):
+    # an explicit edge list written larger-vertex-first (with and without records that construction drops), and a vertex
+    # that no face uses, numbered first / in the middle / last
+    base = [x for x in small if not x[0].startswith(("dev", "tri6#"))]
+    dform = 1 if tier == "quick" else 2
+    for sort in (True, False):
+        for form in ("edges_desc", "edges_desc_invalid", "isolated:first", "isolated:middle", "isolated:last"):
+            for i in range(0, len(base), 2 * BATCH):
+                out.append({"sort": sort, "depth": dform, "form": form, "meshes": base[i:i + 2 * BATCH]})
     return out
+
+
+def _with_isolated(n, faces, where):
+    k = {"first": 0, "middle": n // 2, "last": n}[where]
+    return n + 1, [tuple(v + 1 if v >= k else v for v in f) for f in faces], k
 
 
 # ------------------------------------------------------------------------------------------ events
@@ -318,15 +332,27 @@ def _content_key(m):
     return pickle.dumps((m.vertices._data, m.edges._data, m.faces._data, m.face_corners._elem, m.face_corners._adj), protocol=4)
 
 
+FORM = [None]    # input-form deviation of the current task (None | "edges_desc" | "edges_desc_invalid" | "isolated:<k>")
+
+
 def _build(M, n, faces):
     pts = F.moment_curve(n)
+    form = FORM[0]
+    if form in ("edges_desc", "edges_desc_invalid"):
+        # the caller lists the edges itself, larger vertex first; the second form adds records that construction drops
+        # (a self-loop first, an out-of-range index in the middle)
+        edges = [(b, a) for a, b in sorted(F.undirected_edges([tuple(f) for f in faces]))]
+        if form == "edges_desc_invalid":
+            edges = [(1, 1)] + edges[:1] + [(n + 2, 0)] + edges[1:]
+        return F.build_surface(pts, faces, edges=edges)
     return F.build_surface(pts, faces)
 
 
 def _input_class(o, sort, warm):
     ar = "+".join(str(k) for k in sorted(set(len(f) for f in o.F)))
     closed = not F.border_half_edges(o.F)
-    return f"arity{ar}:{'closed' if closed else 'bordered'}:sort={sort}:{'warm' if warm else 'fresh'}"
+    form = "" if FORM[0] is None else (":isolated_vertex" if FORM[0].startswith("isolated") else ":explicit_edge_list")
+    return f"arity{ar}:{'closed' if closed else 'bordered'}:sort={sort}:{'warm' if warm else 'fresh'}" + form
 
 
 def explore_mesh(M, name, n, faces, sort, rep: Report, events, depth=None, big=False):
@@ -420,12 +446,20 @@ def run_task(task, rep: Report):
             explore_mesh(M, task["big"], len(pts), faces, bool(task["sort"]), rep, _events(bool(task["sort"]), big=True), task.get("depth"), big=True)
             return
         events = _events(bool(task["sort"]))
+        FORM[0] = task.get("form")
         for name, n, faces in task["meshes"]:
             faces = [tuple(f) for f in faces]
+            if FORM[0] is not None:
+                if FORM[0].startswith("isolated"):
+                    n, faces, _ = _with_isolated(n, faces, FORM[0].split(":")[1])
+                explore_mesh(M, name + ":" + FORM[0], n, faces, bool(task["sort"]), rep, events, task.get("depth"))
+                rep.flag("form:" + FORM[0])
+                continue
             explore_mesh(M, name, n, faces, bool(task["sort"]), rep, events, task.get("depth"))
             if task.get("depth") is None:
                 flip_scenario(M, name, n, faces, bool(task["sort"]), rep, events)
     finally:
+        FORM[0] = None
         M.config.sort_neighborhoods = old
 
 
@@ -437,6 +471,9 @@ def finish(tier, rep: Report):
     for kind in ("opposite_corner", "direct_face", "is_edge_on_border", "is_vertex_on_border", "edge_id", "face_id", "common_edge"):
         if len(rep.outcomes.get(kind, ())) < 2:
             fails.append(f"accessor {kind} produced a single distinct outcome")
+    for form in ("edges_desc", "edges_desc_invalid", "isolated:first", "isolated:middle", "isolated:last"):
+        if "form:" + form not in rep.flags:
+            fails.append("input-form deviation not exercised: " + form)
     if rep.counters.get("premise_failed"):
         fails.append("oracle premise failed on some meshes (mesh.edges != face sides)")
     return fails
